@@ -137,7 +137,11 @@ class RealBuf:
     if wrap == 'n':
       self.buf = q
     elif wrap == 'pjit':
-      mesh = jax.sharding.Mesh(np.array(jax.devices()[:D]), ('x',))
+      if D == 2 and (cap + B) % 2 == 0 and len(jax.devices()) >= 4:
+        # a two-axis mesh of which only the first axis shards the buffer (the second is replicated): still 2 shards
+        mesh = jax.sharding.Mesh(np.array(jax.devices()[:4]).reshape(2, 2), ('x', 'y'))
+      else:
+        mesh = jax.sharding.Mesh(np.array(jax.devices()[:D]), ('x',))
       self.buf = rb.PjitWrapper(q, mesh, ('x',))
     elif wrap == 'pmap':
       self.buf = rb.PmapWrapper(q, D)
